@@ -173,6 +173,14 @@ impl DiffCheck {
                     f.rollup_cube = true;
                     f.having = true;
                     f.derived = true;
+                } else if rng.chance(1, 2) {
+                    // ... or on shared materializations: CTEs read several times,
+                    // set operations, correlated subqueries over them
+                    f.cte = true;
+                    f.union = true;
+                    f.correlated = true;
+                    f.subq_scalar = true;
+                    f.subq_exists = true;
                 }
             }
             DiffMode::Config | DiffMode::Schedule => {
@@ -229,6 +237,11 @@ impl Check for DiffCheck {
         let db = db_of(&tables);
         let feats = self.features(&mut rng.fork("swarm"));
         let mut g = Gen::new(rng.fork("queries"), &tables, feats);
+        g.cte_bias = self.mode == DiffMode::Optimizer && rng.fork("ctebias").chance(1, 8);
+        if g.cte_bias {
+            g.f.cte = true;
+            g.f.union = true;
+        }
         let chunk = 1 + rng.fork("chunk").usize_below(9);
         let ((ref_knobs, ref_sim), variants) = self.plan(&rng);
         // tiny batches make per-row costs quadratic in some operators (sort
